@@ -632,6 +632,7 @@ func cafsProp(prop string) propFn {
 				if err := json.Unmarshal(raw, &cs); err != nil {
 					panic(err)
 				}
+				c.Pending(&cs)
 				cafsRun(&cs, py)
 				emit(&cs)
 			}
@@ -682,8 +683,10 @@ func cafsProp(prop string) propFn {
 			switch prop {
 			case "C01":
 				cs.Probes = cafsProbes(r, L, len(content), c.Quick())
+				c.Pending(cs)
 				cafsRun(cs, py)
 			case "C02":
+				c.Pending(cs)
 				cafsRun(cs, py)
 				if cs.PutClass == "ok" {
 					history = cs.After
@@ -696,9 +699,11 @@ func cafsProp(prop string) propFn {
 			case "C03":
 				// first run without damage to learn the keys, then damage one blob and probe
 				probe := &cafsCase{L: L, WriterTo: wt, Chunks: cs.Chunks, Pre: cs.Pre, Flushes: 1}
+				c.Pending(probe)
 				cafsRun(probe, py)
 				if probe.PutClass != "ok" {
 					cs.Probes = nil
+					c.Pending(cs)
 					cafsRun(cs, py)
 					break
 				}
@@ -720,6 +725,7 @@ func cafsProp(prop string) propFn {
 					cs.Probes = append(cs.Probes, cafsProbe{Kind: "warmseq", Bufs: []int{4096}}, cafsProbe{Kind: "warmat", Off: r.Intn(len(content) + 1), N: r.Range(1, 2*L)},
 						cafsProbe{Kind: "warmseq", Bufs: []int{[]int{1, L, 17}[r.Intn(3)]}})
 				}
+				c.Pending(cs)
 				cafsRun(cs, py)
 				if i%3 == 0 && cs.PutClass == "ok" {
 					history = probe.After
